@@ -44,7 +44,8 @@ Shapes2  == { <<1>>, <<2>>, <<1,1>>, <<1,2>>, <<2,1>>, <<1,1,1>>, <<1,1,2>>, <<1
 Shapes3  == { <<3>>, <<1,3>>, <<3,1>>, <<3,1,1>>, <<1,3,1>>, <<1,1,3>> }                               \* 3 voxels
 Shapes4  == { <<2,2>>, <<4>>, <<1,2,2>>, <<2,1,2>>, <<2,2,1>> }                                        \* 4 voxels
 Shapes23 == Shapes2 \cup Shapes3
-ShapesNeg == { <<1>>, <<2>>, <<1,2>>, <<2,1>>, <<1,1,2>> }
+ShapesNeg == { <<1>>, <<2>>, <<1,2>> }
+MatSetsNeg == { << 240, 120 >>, << 60, 240, 120 >> }
 NoShapes == { }
 
 \* value grid of a voxel: the multiples of step from below the smallest to above the largest allowed value
